@@ -324,17 +324,17 @@ Print Assumptions C17_e2e_newest_survives.
 
 (* Historical for REQUEST/SOLICIT (fixed in /repo c1f4ba1, signature ipoe-session-without-claim): MixedAccess was set only
    in handleDiscover.  The same model operation (an ipoe creation path whose session does not claim) is what /repo's
-   restoreFromHASync still does at an HA promotion: KNOWN, signature ipoe-ha-promoted-session-without-claim.  An IPoE
+   restoreFromHASync did at an HA promotion before /repo e71725e (signature ipoe-ha-promoted-session-without-claim, fixed).  An IPoE
    session created by DHCPREQUEST or DHCPv6 SOLICIT never claims its tuple: it owns nothing and shares
    the tuple with a PPPoE session, whichever came first. *)
-Theorem C17_e2e_exclusive_refuted_unclaimed_paths :
+Theorem C17_e2e_exclusive_refuted_pre_c1f4ba1_pre_e71725e :
   e2e_snapshot (e2e_run NoClaimOnRequestSolicit world0 [ERequest e2e_k]) e2e_k = (1%nat, 0%nat, None) /\
   e2e_snapshot (e2e_run NoClaimOnRequestSolicit world0 [ERequest e2e_k; EPadr e2e_k]) e2e_k = (1%nat, 1%nat, Some proto_pppoe) /\
   e2e_snapshot (e2e_run NoClaimOnRequestSolicit world0 [ESolicit e2e_k; EPadr e2e_k]) e2e_k = (1%nat, 1%nat, Some proto_pppoe) /\
   e2e_snapshot (e2e_run NoClaimOnRequestSolicit world0 [EPadr e2e_k; ERequest e2e_k]) e2e_k = (1%nat, 1%nat, Some proto_pppoe) /\
   e2e_snapshot (e2e_run NoClaimOnRequestSolicit world0 [EPadr e2e_k; ESolicit e2e_k]) e2e_k = (1%nat, 1%nat, Some proto_pppoe).
 Proof. exact e2e_unclaimed_paths_witness. Qed.
-Print Assumptions C17_e2e_exclusive_refuted_unclaimed_paths.
+Print Assumptions C17_e2e_exclusive_refuted_pre_c1f4ba1_pre_e71725e.
 
 (* Historical (fixed in /repo 49433a1, signature pppoe-superseded-session-survives): the PPPoE session displaced by a
    replayed PADR was reported by the registry and ignored by addToIndexes; it stays alive without the tuple, and after
